@@ -254,7 +254,8 @@ static void multivariate()
     }
     // three components, n components with strides, spherical coordinates: tuples over a smaller set
     std::vector<a_real> S;
-    for (double d : {0.0, 1.0, 3.0, -4.0, (double)RMIN * 8, (EPS == (double)FLT_EPSILON ? 1e-30 : 1e-200), (EPS == (double)FLT_EPSILON ? 1e30 : 1e200), (double)RMAX / 4, -(double)RMAX / 2}) { S.push_back((a_real)d); }
+    for (double d : {0.0, 1.0, 3.0, -4.0, (double)RMIN * 8, (EPS == (double)FLT_EPSILON ? 1e-30 : 1e-200), (EPS == (double)FLT_EPSILON ? 1e30 : 1e200), (double)RMAX / 4, -(double)RMAX / 2,
+                     1e-3, -1e-5, (EPS == (double)FLT_EPSILON ? 1e-6 : 1e-9)}) { S.push_back((a_real)d); } // the small ratios put points close to a pole / an axis
     size_t ns = S.size();
     for (size_t i = 0; i < ns; ++i)
     {
@@ -296,6 +297,12 @@ static void multivariate()
                         a_real_sph2cart(rho, th, al, &bx, &by, &bz);
                         double tol = 32 * EPS * (double)want;
                         if (!((double)(fabsq((Q)rho - want) / ((Q)EPS * want)) <= 8)) { R.viol("real|cart2sph|rho", "cart2sph radius is not the norm", in); }
+                        // azimuth = atan2(y, x), elevation = atan2(z, hypot(x, y)): both to a few eps of pi (absolute: they are angles)
+                        {
+                            Q wth = atan2q((Q)y, (Q)x), wal = atan2q((Q)z, sqrtq((Q)x * x + (Q)y * y));
+                            if (!(fabsq((Q)th - wth) <= ULPS * (Q)EPS * fmaxq(fabsq(wth), (Q)1e-3))) { R.viol("real|cart2sph|theta", "cart2sph azimuth " + num((double)th) + " is not atan2(y, x) = " + num((double)wth), in); }
+                            if (!(fabsq((Q)al - wal) <= ULPS * (Q)EPS * fmaxq(fabsq(wal), (Q)1e-3))) { R.viol("real|cart2sph|alpha", "cart2sph elevation " + num((double)al) + " is not atan2(z, hypot(x, y)) = " + num((double)wal), in); }
+                        }
                         if (!(std::fabs((double)bx - (double)x) <= tol && std::fabs((double)by - (double)y) <= tol && std::fabs((double)bz - (double)z) <= tol)) { R.viol("real|sph2cart|roundtrip", "sph2cart(cart2sph(x, y, z)) does not return the point", in); }
                     }
                 }
